@@ -44,7 +44,7 @@ type params struct {
 func (*prop) Cases(seed int64, tier string) []core.Case {
 	nc, n := 8, 1
 	if tier == "thorough" {
-		nc, n = 32, 1
+		nc, n = 96, 1
 	}
 	var cs []core.Case
 	for i := 0; i < nc; i++ {
